@@ -177,6 +177,29 @@ impl Transport {
     { unimplemented!() }
 }
 
+// Transport::metadata (src/transport.rs): stat of a path.  Not used by the functions of this unit on the pinned tree;
+// present (with `Kind` cut from the source and `Metadata` minus its `modified` field) so that an edit which decides
+// "closed"/"exists" from a stat -- e.g. by the file's LENGTH -- is judged by the probe clauses instead of leaving the
+// unit unposable.  Link to `is_file` (which the real transport implements as `metadata(..).kind == File`, not-found
+// => false): the kind answers the same probe; nothing is known about `len`.
+//@@ type src/kind.rs | enum Kind derive=Clone,Copy,PartialEq,Eq,Structural
+//@@ end
+
+struct Metadata {
+    len: u64,
+    kind: Kind,
+}
+
+impl Transport {
+    #[verifier::external_body]
+    async fn metadata(&self, relpath: &str) -> (r: std::result::Result<Metadata, TransportError>)
+        ensures
+            r matches Ok(m) ==> file_probe(self.dir(), relpath@) == Ok::<bool, ()>(m.kind == Kind::File),
+            r matches Err(e) ==> (e.not_found() ==> file_probe(self.dir(), relpath@) == Ok::<bool, ()>(false)),
+            r matches Err(e) ==> (!e.not_found() ==> file_probe(self.dir(), relpath@) is Err),
+    { unimplemented!() }
+}
+
 // ASSUMED (the same item as band.vu's bridge_select_transport_identified_by_dir / jsonio.vu's
 // bridge_band_dir_identifies_transport): a Transport value is identified by the directory it points at.
 #[verifier::external_body]
